@@ -26,7 +26,8 @@ Spec(r) == IF "evs" \in DOMAIN r THEN r.evs
            ELSE IF Whole(r) THEN ParseWhole(r.input, AsExt(r.ext)) ELSE ParseDoc(r.input, AsExt(r.ext), r.osm, Base(r))
 Ok(r) == r.obs.st = "ok"
 Silent(evs) == Diags(evs) = <<>>
-HasCounterpart(d, obs) == \E q \in DOMAIN obs : obs[q].k = d.k /\ obs[q].cls = d.cls /\ Touch(obs[q].s, obs[q].e, d.s, d.e)
+\* (a message the recorder's table does not know - "Other" - may be a reworded one: it stands for any class)
+HasCounterpart(d, obs) == \E q \in DOMAIN obs : obs[q].k = d.k /\ obs[q].cls \in {d.cls, "Other"} /\ Touch(obs[q].s, obs[q].e, d.s, d.e)
 Holds(c, r) ==
   LET spec == Spec(r) IN
   CASE c = "Returns"                 -> Ok(r)
